@@ -342,6 +342,7 @@ def plan(tier):
             units.append((si, combos[i:i + step]))
     from mc import wrgraph
     units += [('scale',) + (u[1],) for u in wrgraph.scale_units(tier, 6)[0]]
+    units.append(('rewrite',))
     return {
         'units': units,
         'rule': 'trees of shapes %r (files per change) built only through '
@@ -356,6 +357,9 @@ def plan(tier):
                 'mc/spec.py; harness snapshot of from_bytes(bytes) == '
                 'snapshot the documented normalisation gives; DOM == agrees '
                 'with snapshot equality; to_bytes leaves the tree unchanged. '
+                'Plus a rewrite pass: to_bytes(), ONE nested metadata container '
+                'edited in place, to_bytes() again == bytes of a tree built '
+                'from scratch in the new state. '
                 'Plus a scale pass: trees whose sections take boundary sizes '
                 '(counts, lines, widths around 96 / 1024 / 4096 / 8192 / 65536, '
                 'indent, metadata width / depth). Non-trivial: >= 2 files or '
@@ -368,8 +372,99 @@ def plan(tier):
     }
 
 
+def rewrite_trees():
+    """Trees with nested metadata at every level."""
+    out = []
+    for enc in ('utf-8', 'utf-16'):
+        d = DiffX(encoding=enc, preamble='p\n',
+                  meta={'k': ['v', {'n': 1}], 'stats': {'changes': 1},
+                        'flat': 'x'})
+        c = d.add_change(preamble='c\n',
+                         meta={'revision': {'old': 'a', 'new': 'PENDING'},
+                               'parent ids': ['p1']})
+        c.add_file(meta={'path': {'old': 'a', 'new': 'b'},
+                         'stats': {'insertions': 1}, 'l': [[1], [2]]},
+                   diff=SAMPLE_DIFF)
+        c.add_file(meta={'path': 'plain', 'tags': []})
+        out.append(d)
+    return out
+
+
+def nested_edits(tree):
+    """(label, function) for every nested container of every metadata."""
+    from mc.domsnap import sections_of
+    out = []
+    for path, sec in sections_of(tree):
+        if getattr(sec, 'data_type', None) is not dict or not sec._content:
+            continue
+
+        def walk(o, kp, path=path):
+            items = o.items() if isinstance(o, dict) else enumerate(o)
+            for k, v in list(items):
+                if isinstance(v, (dict, list)):
+                    out.append(('%s%r' % (path, kp + (k,)), path,
+                                kp + (k,)))
+                    walk(v, kp + (k,))
+        walk(sec._content, ())
+    return out
+
+
+def check_rewrite(ti, ei):
+    """to_bytes(); edit ONE nested container in place; to_bytes() again:
+    the second result is what a tree built from scratch in the new state
+    gives, and parses back to the new state."""
+    from mc.domsnap import tree_from_snap, sections_of
+
+    def resolve(t, pth):
+        return dict((p_, s_) for p_, s_ in sections_of(t))[pth]
+    tree = rewrite_trees()[ti]
+    label, path, kp = nested_edits(tree)[ei]
+    try:
+        first = tree.to_bytes()
+        o = resolve(tree, path)._content
+        for k in kp:
+            o = o[k]
+        if isinstance(o, list):
+            o.append('edited')
+        else:
+            o['edited'] = True
+        second = tree.to_bytes()
+        fresh_t = tree_from_snap(snap(tree))
+        want = fresh_t.to_bytes()
+        back = DiffX.from_bytes(second)
+    except Exception as e:
+        return [('rewrite-raised:%s:%s' % (type(e).__name__, site_of(e)),
+                 repr(e))]
+    v = []
+    if second != want:
+        v.append(('second-to-bytes-stale' if second == first
+                  else 'second-to-bytes-differs-from-fresh-tree',
+                  'after to_bytes() and an in-place edit at %s the next '
+                  'to_bytes() is not what a fresh tree in that state writes'
+                  % label))
+    elif fsnap(back) != fsnap(DiffX.from_bytes(want)):
+        v.append(('reloaded-after-rewrite-differs', label))
+    return v
+
+
 def run_unit(unit, tier):
     acc = Acc()
+    if unit[0] == 'rewrite':
+        for ti in range(len(rewrite_trees())):
+            for ei in range(len(nested_edits(rewrite_trees()[ti]))):
+                viols = check_rewrite(ti, ei)
+                acc.evals += 1
+                acc.states += 1
+                acc.transitions += 3
+                acc.validated += 1
+                acc.nontrivial += 1
+                for key, msg in viols:
+                    acc.violation(key, msg, {'kind': 'rewrite', 'ti': ti,
+                                             'ei': ei})
+                acc.outcome('ok' if not viols else 'violation')
+        acc.sample({'rewrite_after_nested_edit':
+                    [e[0] for e in nested_edits(rewrite_trees()[0])][:6]}, 1)
+        return acc
     shapes = SHAPES_Q if tier == 'quick' else SHAPES_T
     if unit[0] == 'scale':
         from mc import wrgraph
@@ -422,6 +517,9 @@ def run_unit(unit, tier):
 
 
 def replay(payload):
+    if payload.get('kind') == 'rewrite':
+        return [{'key': k, 'msg': m}
+                for k, m in check_rewrite(payload['ti'], payload['ei'])]
     if payload.get('kind') == 'scale':
         from mc import wrgraph
         variants = wrgraph.scale_units('quick', 6)[2]
